@@ -146,6 +146,10 @@ def tlc_finish(p, d, allow_violation=False):
     txt = open(os.path.join(d, "tlc.out")).read()
     m = TLC_STATES.findall(txt)
     gen, dist = (int(m[-1][0]), int(m[-1][1])) if m else (0, 0)
+    if not m:       # simulation mode reports differently
+        ms = re.findall(r"The number of states generated: (\d+)", txt)
+        if ms:
+            gen = dist = int(ms[-1])
     res = dict(rc=rc, generated=gen, distinct=dist, out=txt)
     if rc == 124:
         raise Broken("TLC timed out in %s" % d)
@@ -263,10 +267,15 @@ def drive(ctx, name, area, n, shards=None, params=None, binary=None, extra_args=
 VALIDATE_CFG = "INIT Init\nNEXT Next\nINVARIANT WriteOut\nCHECK_DEADLOCK FALSE\n"
 
 
-def tlc_validate(ctx, name, module, files, timeout=3600, cfg=VALIDATE_CFG):
+TRACE_CFG = {}      # trace module -> extra cfg lines (constants of the specification it extends)
+
+
+def tlc_validate(ctx, name, module, files, timeout=3600, cfg=None):
     """M3: every shard is validated by its own TLC process against spec/trace/<module>.tla;
     returns the list of (shard file, bad entries)"""
     t = time.time()
+    extra = TRACE_CFG.get(module, "")
+    cfg = cfg or (extra if extra.startswith("INIT") else VALIDATE_CFG + extra)
     procs = []
     for k, f in enumerate(files):
         if os.path.getsize(f) == 0:
